@@ -30,8 +30,45 @@ def make_replay(pid, unit, failure, seed):
     return path, found
 
 
+def expected_shared_file(types):
+    """The file C05 demands for a set of types sharing one file: notice, blank line, every type's own chunk (what exporting it
+    alone writes after the notice) exactly once, in name order."""
+    from driver import witness
+    chunks = {}
+    note = None
+    for t in types:
+        o = witness.run_history([['export_all', t]])
+        f = next((v for k, v in o.get('files', {}).items() if k.endswith('shared.ts')), None)
+        if f is None:
+            return None
+        head, body = f.split('\n\n', 1)
+        note = head
+        chunks[t] = body.strip('\n')
+    return note + '\n' + ''.join('\n' + chunks[t] + '\n' for t in sorted(types))
+
+
 def known_finding_lines(pid, kf, results):
-    return []
+    """Replay the witness of every listed finding for this property on the real code; it is printed as KNOWN-FINDING while it
+    still fails (exit code unaffected). Nothing is ever added to the file at run time."""
+    from driver import witness
+    lines = []
+    for f in kf.get('findings', []):
+        if pid not in f.get('properties', []):
+            continue
+        w = f['witness']
+        try:
+            got = witness.run_history(w['steps'])
+            actual = got.get('files', {}).get(w['file'])
+            want = expected_shared_file(w['types'])
+            still = (actual != want)
+        except Exception as e:   # replay unavailable: say so, do not alarm
+            lines.append(f"KNOWN-FINDING: property={pid} {f['id']} (witness could not be replayed: {type(e).__name__}) {f['what']}")
+            continue
+        if still:
+            lines.append(f"KNOWN-FINDING: property={pid} {f['id']} {f['what']}")
+        else:
+            lines.append(f"NOTE: property={pid} known finding {f['id']} no longer reproduces on this tree (stale entry in known_findings.json)")
+    return lines
 
 
 def thorough_extras(pid, units, seed):
